@@ -53,6 +53,32 @@ def Datum.locsList : List Datum → List Pos
   | x :: xs => x.locs ++ Datum.locsList xs
 end
 
+/-! ## data whose elements all carry a position
+
+The reader gives a position to every datum it reads from a token (atoms, `(`-lists, vectors,
+quotations) but not to the inner cells of a list's spine. `Datum.HL d` ("head-located") says: `d`
+carries a position, and so does every element inside it — every car, every improper tail, every
+vector element, recursively; `Datum.TL d` says the same of `d` as the *rest* of a list (whose own
+cell needs no position). -/
+
+mutual
+def Datum.HL : Datum → Prop
+  | .prim _ l => l ≠ none
+  | .sym _ l => l ≠ none
+  | .nil l => l ≠ none
+  | .pair a d l => l ≠ none ∧ a.HL ∧ d.TL
+  | .vec xs l => l ≠ none ∧ Datum.HLs xs
+def Datum.TL : Datum → Prop
+  | .pair a d _ => a.HL ∧ d.TL
+  | .nil _ => True
+  | .prim _ l => l ≠ none
+  | .sym _ l => l ≠ none
+  | .vec xs l => l ≠ none ∧ Datum.HLs xs
+def Datum.HLs : List Datum → Prop
+  | [] => True
+  | x :: xs => x.HL ∧ Datum.HLs xs
+end
+
 /-- the positions of the tokens of a list -/
 def tokLocs (ts : List LToken) : List Pos := ts.flatMap (fun t => t.loc.toList)
 
